@@ -19,7 +19,7 @@ use core::ops::{Deref, DerefMut};
 
 use crate::ghost;
 
-pub const NLOCK: usize = 48;
+pub const NLOCK: usize = 20;
 
 pub struct LockTable {
     pub readers: [u8; NLOCK],
@@ -366,18 +366,28 @@ impl Condvar {
 // ==========================================================================================
 // Arc / Weak model
 // ==========================================================================================
-pub const NARC: usize = 24;
+pub const NARC: usize = 12;
+pub const NCLASS: usize = 8;
+/// One count table per *class* of pointee (class = size_of::<T>()/8 % NCLASS, a compile-time
+/// constant per instantiation): a drop through a symbolic `Arc<RegionInner>` pointer is a
+/// symbolic-index write into the RegionInner table only, so the `Arc<DatabaseInner>` count stays
+/// concrete and `Database::drop`'s `strong_count == 1` test constant-folds (otherwise CBMC
+/// explores `sync_bg_tasks` at every temporary `Database` drop).
 pub struct ArcTable {
-    pub strong: [usize; NARC],
+    pub strong: [[usize; NARC]; NCLASS],
     pub next: usize,
 }
-pub static mut ARCS: ArcTable = ArcTable { strong: [0; NARC], next: 0 };
+pub static mut ARCS: ArcTable = ArcTable { strong: [[0; NARC]; NCLASS], next: 0 };
 #[inline]
 fn arcs() -> &'static mut ArcTable {
     #[allow(static_mut_refs)]
     unsafe {
         &mut *core::ptr::addr_of_mut!(ARCS)
     }
+}
+#[inline(always)]
+const fn class_of_size(n: usize) -> usize {
+    (n / 8) % NCLASS
 }
 
 /// The strong count lives in a global table indexed by a per-allocation id, so that `clone` /
@@ -402,7 +412,7 @@ impl<T> Arc<T> {
         let id = t.next;
         assert!(id < NARC, "VERIF: bound exceeded: too many Arc allocations");
         t.next = id + 1;
-        t.strong[id] = 1;
+        t.strong[class_of_size(core::mem::size_of::<T>())][id] = 1;
         let b = Box::new(ArcInner { id, value });
         Self { ptr: Box::into_raw(b) }
     }
@@ -412,7 +422,7 @@ impl<T> Arc<T> {
     }
     #[inline]
     pub fn strong_count(this: &Self) -> usize {
-        arcs().strong[this.inner().id]
+        arcs().strong[class_of_size(core::mem::size_of::<T>())][this.inner().id]
     }
     #[inline]
     pub fn ptr_eq(a: &Self, b: &Self) -> bool {
@@ -433,15 +443,19 @@ impl<T> Arc<T> {
         Self { ptr: unsafe { (p as *const u8).sub(off) } as *const ArcInner<T> }
     }
     /// Model-only: set the strong count (harness state builders: "k extra handles exist").
+    /// Model-only: table class of this pointee type.
+    pub fn verif_class() -> usize {
+        class_of_size(core::mem::size_of::<T>())
+    }
     pub fn verif_set_strong(this: &Self, n: usize) {
-        arcs().strong[this.inner().id] = n;
+        arcs().strong[class_of_size(core::mem::size_of::<T>())][this.inner().id] = n;
     }
 }
 impl<T> Clone for Arc<T> {
     #[inline]
     fn clone(&self) -> Self {
         let id = self.inner().id;
-        arcs().strong[id] += 1;
+        arcs().strong[class_of_size(core::mem::size_of::<T>())][id] += 1;
         Self { ptr: self.ptr }
     }
 }
@@ -450,9 +464,9 @@ impl<T> Drop for Arc<T> {
     fn drop(&mut self) {
         // never torn down (leak): see module doc
         let id = self.inner().id;
-        let t = arcs();
-        if t.strong[id] > 0 {
-            t.strong[id] -= 1;
+        let t = &mut arcs().strong[class_of_size(core::mem::size_of::<T>())];
+        if t[id] > 0 {
+            t[id] -= 1;
         }
     }
 }
@@ -484,11 +498,11 @@ impl<T> Weak<T> {
             return None;
         }
         let id = unsafe { &*self.ptr }.id;
-        let t = arcs();
-        if t.strong[id] == 0 {
+        let t = &mut arcs().strong[class_of_size(core::mem::size_of::<T>())];
+        if t[id] == 0 {
             return None;
         }
-        t.strong[id] += 1;
+        t[id] += 1;
         Some(Arc { ptr: self.ptr })
     }
 }
